@@ -110,7 +110,7 @@ func NewWorld(run *vh.Run, mat *Material) *World {
 	}
 	debug.SetMemoryLimit(256 << 20)
 	return &World{Run: run, Srv: srv, Pool: pool, Empty: srv.Store().Snapshot(), Mat: mat, Ctx: ctx,
-		nodes: map[string]*Node{}, Timeout: 5 * time.Second}
+		nodes: map[string]*Node{}, Timeout: 20 * time.Second}
 }
 
 // Close reports what pgfake noticed while serving.
